@@ -7,6 +7,7 @@ mod c04;
 mod c05;
 mod c06;
 mod c08;
+mod c12;
 mod c13;
 mod reg;
 mod c14;
@@ -75,6 +76,7 @@ fn main() {
     "C09" => fcprops::run("C09", tier, seed),
     "C10" => fcprops::run("C10", tier, seed),
     "C11" => fcprops::run("C11", tier, seed),
+    "C12" => c12::run(tier, seed),
     "C13" => c13::run(tier, seed),
     "C14" => c14::run(tier, seed),
     "C15" => c15::run_c15(tier, seed),
